@@ -258,6 +258,24 @@ def gen_alloc(rng, label):
     if fam == 'fork' and rng.random() < 0.8:
         names[rng.randrange(T) if rng.random() < 0.3 else 0] = \
                 'localhost' if label == 'FORK' else _hostname()
+    if fam == 'fork' and T > 1 and rng.random() < 0.5:
+        # neighbours whose names look like the agent's own node name: a
+        # proper prefix of it, or with a suffix (node1 / node10 / node1-ib)
+        own  = _hostname()
+        like = [own[:-1] or 'x', own + '0', own + '-ib', 'localhos',
+                'localhost2', own.upper() if own.upper() != own else own + 'x']
+        free = [i for i, nm in enumerate(names)
+                if nm not in ('localhost', own)]
+        for i in rng.sample(free, min(len(free), rng.randint(1, 3))):
+            names[i] = rng.choice(like) + ('' if rng.random() < 0.7
+                                              else '.%d' % i)
+        # names must stay unique
+        seen_ = set()
+        for i, nm in enumerate(names):
+            while nm in seen_:
+                nm = nm + 'x'
+            names[i] = nm
+            seen_.add(nm)
 
     knobs = {'oversubscribe' : rng.random() < 0.4,
              'exact'         : rng.random() < 0.3,
